@@ -1,5 +1,7 @@
 """Normal form: table-driven code is unrolled.
 
+`with self._cm(..):` over a generator-based context manager of the same class / module that binds no locals is replaced
+by the manager's statements before its `yield`, the block, and its statements after (or `try: block finally: ..`).
 A loop over a *constant table* (a tuple / list / dict literal written in place, bound once to a local, a class
 attribute or a module-level name, or returned by a parameterless helper whose body is `return <literal>`), whose rows
 are made of constants, names and attribute chains, is replaced by its body once per row with the loop variables
@@ -300,6 +302,87 @@ class Unroller(ast.NodeTransformer):
             return node
         rows = list(t[1].keys) if t[0] == "pairs" else t[1]
         return self.unroll(node, rows) or node
+
+    # ---- with-statements over simple context managers of the same class / module
+    def _context_manager(self, call):
+        """(function def, receiver name or None) when `call` invokes a @contextmanager generator defined in this module"""
+        f = call.func
+        fn = recv = None
+        if isinstance(f, ast.Name):
+            fn = self.mod_funcs.get(f.id)
+        elif isinstance(f, ast.Attribute) and isinstance(f.value, ast.Name) and f.value.id in ("self", "cls") and self.cls:
+            fn = self.classes.get(self.cls[-1], ({}, {}))[1].get(f.attr)
+            recv = f.value.id
+        if fn is None:
+            return None
+        decos = {ast.unparse(d) for d in fn.decorator_list}
+        if not decos & {"contextmanager", "contextlib.contextmanager"}:
+            return None
+        return fn, recv
+
+    def visit_With(self, node):
+        self.generic_visit(node)
+        if len(node.items) != 1 or not isinstance(node.items[0].context_expr, ast.Call):
+            return node
+        item = node.items[0]
+        call = item.context_expr
+        got = self._context_manager(call)
+        if got is None or call.keywords or any(isinstance(a, ast.Starred) or not _simple(a) for a in call.args):
+            return node
+        fn, recv = got
+        params = [a.arg for a in fn.args.args]
+        if recv is not None:
+            if not params:
+                return node
+            params = params[1:]
+        if len(params) != len(call.args) or fn.args.vararg or fn.args.kwarg or fn.args.kwonlyargs or fn.args.defaults:
+            return node
+        body = [st for st in fn.body if not (isinstance(st, ast.Expr) and isinstance(st.value, ast.Constant))]
+        # no plain local may be bound inside the manager (it would leak into the caller's scope)
+        if any(isinstance(n, ast.Name) and isinstance(n.ctx, (ast.Store, ast.Del)) for st in body for n in ast.walk(st)):
+            return node
+        if any(isinstance(n, (ast.Return, ast.FunctionDef, ast.Lambda)) for st in body for n in ast.walk(st)):
+            return node
+
+        def is_yield(st):
+            return isinstance(st, ast.Expr) and isinstance(st.value, ast.Yield)
+
+        n_yield = sum(1 for st in body for n in ast.walk(st) if isinstance(n, (ast.Yield, ast.YieldFrom)))
+        if n_yield != 1:
+            return node
+        mapping = dict(zip(params, call.args))
+
+        def sub(stmts):
+            return [ast.copy_location(_Subst(mapping).visit(copy.deepcopy(st)), node) if False else _Subst(mapping).visit(copy.deepcopy(st)) for st in stmts]
+
+        idx = [i for i, st in enumerate(body) if is_yield(st)]
+        yielded = None
+        if idx:
+            pre, post = body[: idx[0]], body[idx[0] + 1 :]
+            yielded = body[idx[0]].value.value
+            core = list(node.body)
+            wrap = None
+        else:
+            # pre ; try: yield  finally: post
+            tr = [i for i, st in enumerate(body) if isinstance(st, ast.Try) and len(st.body) == 1 and is_yield(st.body[0]) and not st.handlers and not st.orelse and st.finalbody]
+            if len(tr) != 1 or tr[0] != len(body) - 1:
+                return node
+            pre, post = body[: tr[0]], []
+            yielded = body[tr[0]].body[0].value.value
+            wrap = body[tr[0]]
+            core = list(node.body)
+        out = sub(pre)
+        if item.optional_vars is not None:
+            if not isinstance(item.optional_vars, ast.Name) or yielded is None:
+                return node
+            val = _Subst(mapping).visit(copy.deepcopy(yielded))
+            out.append(ast.copy_location(ast.Assign(targets=[item.optional_vars], value=val, type_comment=None), node))
+        if wrap is None:
+            out += core + sub(post)
+        else:
+            out.append(ast.copy_location(ast.Try(body=core, handlers=[], orelse=[], finalbody=sub(wrap.finalbody)), node))
+        self.count += 1
+        return out
 
     # ---- comprehensions over tables
     def _comp_items(self, node, elt_of):
